@@ -796,6 +796,114 @@ func Run(r *ev.Run) {
 		}
 	}
 
+	// ---- B8 pointer sweep: in every name position (owner; NS, CNAME, PTR, MX, SOA x2, SRV, SVCB, HTTPS RDATA) a name made of
+	// {nothing, one 1-octet label, one 63-octet label} followed by a pointer to EVERY offset 0..len+3 (and 0x3fff), over
+	// question names of 17 and 190..255 octets: the package and the independent codec agree on accept/reject and on what was
+	// read (a pointer to exactly the end of the message, a compressed SRV target and a name that exceeds 255 octets only through
+	// its pointer are points of this grid) ----
+	{
+		longName := func(wire int) []byte { // a name of exactly `wire` octets on the wire, root label included
+			var b []byte
+			rest := wire - 1
+			for c := byte('a'); rest > 0; c++ {
+				l := min(63, rest-1)
+				b = append(b, byte(l))
+				b = append(b, bytes.Repeat([]byte{c}, l)...)
+				rest -= 1 + l
+			}
+			return append(b, 0)
+		}
+		qnames := [][]byte{{3, 'w', 'w', 'w', 7, 'e', 'x', 'a', 'm', 'p', 'l', 'e', 3, 'c', 'o', 'm', 0}}
+		for _, w := range []int{190, 191, 192, 193, 252, 253, 254, 255} {
+			qnames = append(qnames, longName(w))
+		}
+		type pos struct {
+			name       string
+			typ        uint16
+			pre, post  []byte // RDATA before / after the name under test; owner position: typ 1, pre nil
+			ownerIsSut bool
+		}
+		soaTail := make([]byte, 20)
+		positions := []pos{
+			{"owner", 1, nil, nil, true},
+			{"ns", 2, nil, nil, false}, {"cname", 5, nil, nil, false}, {"ptr", 12, nil, nil, false},
+			{"mx", 15, []byte{0, 10}, nil, false},
+			{"soa-mname", 6, nil, append([]byte{0}, soaTail...), false},
+			{"soa-rname", 6, []byte{0}, soaTail, false},
+			{"srv", 33, []byte{0, 1, 0, 2, 0x13, 0xc4}, nil, false},
+			{"svcb", 64, []byte{0, 1}, nil, false}, {"https", 65, []byte{0, 1}, nil, false}, {"https-alias", 65, []byte{0, 0}, nil, false},
+		}
+		prefixes := [][]byte{nil, {1, 'p'}, append([]byte{63}, bytes.Repeat([]byte{'P'}, 63)...)}
+		var agree, accepted int
+		for _, qn := range qnames {
+			for _, ps := range positions {
+				for pi, pre := range prefixes {
+					build := func(ptr int) []byte {
+						sut := append(slices.Clone(pre), 0xc0|byte(ptr>>8), byte(ptr))
+						m := []byte{0, 9, 0x81, 0x80, 0, 1, 0, 1, 0, 0, 0, 0}
+						m = append(m, qn...)
+						m = append(m, 0, 255, 0, 1)
+						var rd []byte
+						if ps.ownerIsSut {
+							m = append(m, sut...)
+							rd = []byte{10, 0, 0, 1}
+						} else {
+							m = append(m, 0xc0, 12)
+							rd = append(append(slices.Clone(ps.pre), sut...), ps.post...)
+						}
+						m = append(m, byte(ps.typ>>8), byte(ps.typ), 0, 1, 0, 0, 0, 60, byte(len(rd)>>8), byte(len(rd)))
+						return append(m, rd...)
+					}
+					n := len(build(0))
+					ptrs := []int{0x3fff, 0x2000, n + 256}
+					for o := 0; o <= n+3; o++ {
+						ptrs = append(ptrs, o)
+					}
+					for _, ptr := range ptrs {
+						m := build(ptr)
+						tag := fmt.Sprintf("pointer-sweep:%s", ps.name)
+						replay := map[string]any{"wire": fmt.Sprintf("%x", m), "position": ps.name, "pointer": ptr, "message_length": len(m), "own_labels": pi}
+						oc := "both-reject"
+						func() {
+							defer func() {
+								if p := recover(); p != nil {
+									oc = "panic"
+									r.Violation("panic-decode:"+tag, fmt.Sprintf("DecodeMessage panicked on a pointer to offset %d of a %d-octet message: %v", ptr, len(m), p), replay)
+								}
+							}()
+							ref, refErr := dnsref.Decode(m)
+							got, err := dns.DecodeMessage(m)
+							switch {
+							case refErr != nil && err == nil:
+								oc = "pkg-accepts-what-ref-refuses"
+								r.Violation("decode-accepts-invalid:"+tag, fmt.Sprintf("pointer to offset %d after %d own octets (question name %d octets): the independent codec refuses the message, DecodeMessage returns %+v", ptr, len(pre), len(qn), got.Answer), replay)
+							case refErr == nil && err != nil:
+								oc = "pkg-refuses-what-ref-accepts"
+								r.Violation("decode-rejects-valid:"+tag, fmt.Sprintf("pointer to offset %d after %d own octets (question name %d octets): valid for the independent codec (%s), DecodeMessage: %v", ptr, len(pre), len(qn), ref.Canon(), err), replay)
+							case refErr == nil:
+								oc = "both-accept"
+								accepted++
+								if g, err := fromPkg(got); err != nil {
+									r.Violation("decode-type:"+tag, err.Error(), replay)
+								} else if g.Canon() != ref.Canon() {
+									oc = "read-differently"
+									r.Violation("decode-differs:"+tag, fmt.Sprintf("DecodeMessage disagrees with the independent codec:\n got  %s\n want %s", g.Canon(), ref.Canon()), replay)
+								}
+							}
+						}()
+						agree++
+						r.Eval(string(m), oc)
+					}
+				}
+			}
+		}
+		if accepted < 500 {
+			ev.ToolError("c13 pointer sweep: only %d of %d grid points are valid messages", accepted, agree)
+		}
+		r.Set("pointer_sweep_points", agree)
+		r.Set("pointer_sweep_valid_messages", accepted)
+	}
+
 	// ---- B5' the header bits this package has no field for - AD and CD (RFC 4035), set by validating resolvers and by stub
 	// resolvers that ask for them: a response or query carrying them decodes like the same message without them ----
 	{
